@@ -175,3 +175,44 @@ Fixpoint v_program (p : cprogram) (k : nat) : option (program * nat) :=
       do '(l, k2) <- v_program r k1;
       Some (cl :: l, k2)
   end.
+
+(* ------------------------------------------------------------------ what the visitor keeps *)
+
+(* AST_CLAUSE_COUNT: the program handed to the compiler has exactly one clause per `clause` node of the
+   parse tree, in source order, each the image of its node (directives contribute nothing). *)
+Definition clause_image (cc : cclause) (c : clause) : Prop := exists k k', v_clause cc k = Some (c, k').
+
+Theorem v_program_clauses cst : forall k prog k', v_program cst k = Some (prog, k') ->
+  Forall2 clause_image (clauses_of cst) prog.
+Proof.
+  induction cst as [|c cst IH]; intros k prog k' H; simpl in H.
+  - injection H as <- _. constructor.
+  - destruct c as [cc|sp].
+    + destruct (v_clause cc k) as [[cl k1]|] eqn:E; [|discriminate].
+      destruct (v_program cst k1) as [[l k2]|] eqn:E1; [|discriminate].
+      injection H as <- _. simpl. constructor; [exists k, k1; exact E | eapply IH; eauto].
+    + destruct (v_directive sp k) as [k1|]; [|discriminate]. simpl. eapply IH; eauto.
+Qed.
+
+Corollary v_program_count cst k prog k' : v_program cst k = Some (prog, k') ->
+  length prog = length (clauses_of cst).
+Proof.
+  intros H. apply v_program_clauses in H. induction H; simpl; congruence.
+Qed.
+
+(* the head of an AST clause is the head of its node: name and arguments come from the visited head term *)
+Lemma clause_image_head cc c : clause_image cc c ->
+  exists t k k1, (cc = C_fact (SP_term t) \/ exists b, cc = C_rule (SP_term t) b) /\
+    v_callable t k = Some (c_name c, c_args c, k1) /\ valid_pred_name (c_name c) = true.
+Proof.
+  intros [k [k' H]]. destruct cc as [h|h b]; simpl in H.
+  - destruct h as [| | |t]; try discriminate. simpl in H.
+    destruct (v_callable t k) as [[[f args] k1]|] eqn:E; [|discriminate].
+    destruct (valid_pred_name f) eqn:Ev; [|discriminate]. injection H as <- _.
+    exists t, k, k1. simpl. auto.
+  - destruct h as [| | |t]; try discriminate. simpl in H.
+    destruct (v_callable t k) as [[[f args] k1]|] eqn:E; [|discriminate].
+    destruct (valid_pred_name f) eqn:Ev; [|discriminate].
+    destruct (v_pe b k1) as [[b' k2]|]; [|discriminate]. injection H as <- _.
+    exists t, k, k1. simpl. split; [right; eauto | auto].
+Qed.
